@@ -508,7 +508,7 @@ inline BatchResult runBatch(const Options& opt, uint64_t nRuns, const RunFn& fn,
         if (pid == 0) {
             close(pfd[0]);
             for (auto& o : ws) if (o.fd >= 0) close(o.fd);
-            int efd = open(k.errPath.c_str(), O_WRONLY | O_CREAT | O_TRUNC, 0644);
+            int efd = getenv("VERIF_DEBUG_STDERR") ? -1 : open(k.errPath.c_str(), O_WRONLY | O_CREAT | O_TRUNC, 0644);
             if (efd >= 0) { dup2(efd, 2); close(efd); }
             if (workerInit) workerInit();
             int out = pfd[1];
